@@ -93,6 +93,11 @@ func runC20(c *Ctx) error {
 		}
 	})
 	c.AddStat("decorator_conformance_runs", nd2)
+	{
+		hr := TD.NewRun("close-abreast-hammer", nil)
+		hr.Key = "close-abreast-hammer"
+		subdecCloseHammer(hr, c.Pick(1500, 40000))
+	}
 	subdecReplayAll(c, TD)
 	return nil
 }
